@@ -40,46 +40,45 @@ static void c19_deep_snap(struct c19_deep *d)
     for(int i = 0; i < NS; i++) {
         const struct AutomationSlot *s = &M.slots[i];
         d->s[i].active = s->active; d->s[i].used = s->used; d->s[i].learning = s->learning; d->s[i].cc = s->midi_cc;
-        d->s[i].nrpn = s->midi_nrpn; d->s[i].cur = v_f_bits(s->current_state); d->s[i].automations = s->automations;
+        d->s[i].nrpn = s->midi_nrpn; d->s[i].cur = c19_u(s->current_state); d->s[i].automations = s->automations;
         for(int j = 0; j < PS; j++) {
             const struct Automation *a = &s->automations[j];
             d->a[i][j].used = a->used; d->a[i][j].active = a->active; d->a[i][j].rel = a->relative;
-            d->a[i][j].type = a->param_type; d->a[i][j].base = v_f_bits(a->param_base_value);
-            d->a[i][j].mn = v_f_bits(a->param_min); d->a[i][j].mx = v_f_bits(a->param_max);
-            d->a[i][j].step = v_f_bits(a->param_step); d->a[i][j].gain = v_f_bits(a->map.gain);
-            d->a[i][j].off = v_f_bits(a->map.offset); d->a[i][j].scale = a->map.control_scale;
+            d->a[i][j].type = a->param_type; d->a[i][j].base = c19_u(a->param_base_value);
+            d->a[i][j].mn = c19_u(a->param_min); d->a[i][j].mx = c19_u(a->param_max);
+            d->a[i][j].step = c19_u(a->param_step); d->a[i][j].gain = c19_u(a->map.gain);
+            d->a[i][j].off = c19_u(a->map.offset); d->a[i][j].scale = a->map.control_scale;
             d->a[i][j].ctype = a->map.control_type; d->a[i][j].npoints = a->map.npoints;
             d->a[i][j].upoints = a->map.upoints; d->a[i][j].cps = a->map.control_points;
-            for(int c = 0; c < NCP; c++) d->a[i][j].cp[c] = v_f_bits(a->map.control_points[c]);
+            for(int c = 0; c < NCP; c++) d->a[i][j].cp[c] = c19_u(a->map.control_points[c]);
         }
     }
 }
 
-/* a == b except (optionally) the current_state of slot `except_cur` */
+/* a == b except (optionally) the current_state of slot `except_cur` (no early exits: cheap for symbolic execution) */
 static bool c19_deep_eq(const struct c19_deep *x, const struct c19_deep *y, int except_cur)
 {
-    if(x->slots != y->slots || x->backend != y->backend || x->impl != y->impl || x->p != y->p || x->instance != y->instance)
-        return false;
-    if(x->nslots != y->nslots || x->per_slot != y->per_slot || x->active_slot != y->active_slot || x->k != y->k
-       || x->damaged != y->damaged) return false;
-    for(int r = 0; r < 4; r++) if(x->reg[r] != y->reg[r]) return false;
+    bool e = x->slots == y->slots && x->backend == y->backend && x->impl == y->impl && x->p == y->p
+          && x->instance == y->instance && x->nslots == y->nslots && x->per_slot == y->per_slot
+          && x->active_slot == y->active_slot && x->k == y->k && x->damaged == y->damaged;
+    for(int r = 0; r < 4; r++) e = e & (x->reg[r] == y->reg[r]);
     for(int i = 0; i < NS; i++) {
-        if(x->s[i].active != y->s[i].active || x->s[i].used != y->s[i].used || x->s[i].learning != y->s[i].learning
-           || x->s[i].cc != y->s[i].cc || x->s[i].nrpn != y->s[i].nrpn || x->s[i].automations != y->s[i].automations)
-            return false;
-        if(i != except_cur && x->s[i].cur != y->s[i].cur) return false;
+        e = e & (x->s[i].active == y->s[i].active) & (x->s[i].used == y->s[i].used)
+              & (x->s[i].learning == y->s[i].learning) & (x->s[i].cc == y->s[i].cc) & (x->s[i].nrpn == y->s[i].nrpn)
+              & (x->s[i].automations == y->s[i].automations) & (i == except_cur || x->s[i].cur == y->s[i].cur);
         for(int j = 0; j < PS; j++) {
-            if(x->a[i][j].used != y->a[i][j].used || x->a[i][j].active != y->a[i][j].active
-               || x->a[i][j].rel != y->a[i][j].rel || x->a[i][j].type != y->a[i][j].type
-               || x->a[i][j].base != y->a[i][j].base || x->a[i][j].mn != y->a[i][j].mn || x->a[i][j].mx != y->a[i][j].mx
-               || x->a[i][j].step != y->a[i][j].step || x->a[i][j].gain != y->a[i][j].gain
-               || x->a[i][j].off != y->a[i][j].off || x->a[i][j].scale != y->a[i][j].scale
-               || x->a[i][j].ctype != y->a[i][j].ctype || x->a[i][j].npoints != y->a[i][j].npoints
-               || x->a[i][j].upoints != y->a[i][j].upoints || x->a[i][j].cps != y->a[i][j].cps) return false;
-            for(int c = 0; c < NCP; c++) if(x->a[i][j].cp[c] != y->a[i][j].cp[c]) return false;
+            e = e & (x->a[i][j].used == y->a[i][j].used) & (x->a[i][j].active == y->a[i][j].active)
+                  & (x->a[i][j].rel == y->a[i][j].rel) & (x->a[i][j].type == y->a[i][j].type)
+                  & (x->a[i][j].base == y->a[i][j].base) & (x->a[i][j].mn == y->a[i][j].mn)
+                  & (x->a[i][j].mx == y->a[i][j].mx) & (x->a[i][j].step == y->a[i][j].step)
+                  & (x->a[i][j].gain == y->a[i][j].gain) & (x->a[i][j].off == y->a[i][j].off)
+                  & (x->a[i][j].scale == y->a[i][j].scale) & (x->a[i][j].ctype == y->a[i][j].ctype)
+                  & (x->a[i][j].npoints == y->a[i][j].npoints) & (x->a[i][j].upoints == y->a[i][j].upoints)
+                  & (x->a[i][j].cps == y->a[i][j].cps);
+            for(int c = 0; c < NCP; c++) e = e & (x->a[i][j].cp[c] == y->a[i][j].cp[c]);
         }
     }
-    return true;
+    return e;
 }
 
 /* postcondition of setSlot(slot_id, value) over (pre, post, recorder); the recorder was empty before the call */
